@@ -39,7 +39,7 @@ def demo_cmd(m):
     for f in demo:
         names += re.findall(r"func (Test\w+)\(", open(os.path.join(d, f)).read())
     cmd = ["go", "test", "-vet=off", "-count=1", "-run", "^(" + "|".join(names) + ")$", "."]
-    if meta.get("demo_race") or "-race" in (meta.get("how_verified", "") + meta.get("demo_cmd", "")):
+    if meta.get("demo_race") is not False and (meta.get("demo_race") or "-race" in (meta.get("how_verified", "") + meta.get("demo_cmd", ""))):
         cmd.insert(2, "-race")
     return cmd
 mp = scratch(True)
